@@ -48,6 +48,14 @@ def gen(rng, n):
             if m['mode'] == 'plain' and rng.random() < 0.5:
                 s['steps'][0]['argv'] = ['-f'] + av0
                 m['mode'] = 'force'
+        if rng.random() < 0.15:
+            # arguments the kernel cannot even look up (a component longer than NAME_MAX, a symbolic link that loops): they do not exist,
+            # say so, go on with the next argument
+            if rng.random() < 0.5:
+                args.append({'arg': rng.choice(['', 'sub/']) + 'n' * 300, 'kind': 'missing', 'entry': None, 'expect': 'missing'})
+            else:
+                s['tree'].append(['l', m['cwd'].rstrip('/') + '/loop', 'loop'])
+                args.append({'arg': 'loop/x', 'kind': 'missing', 'entry': None, 'expect': 'missing'})
         rng.shuffle(args)
         if m['mode'] != 'interactive' and rng.random() < 0.15:
             # the very same argument string once more, later on the command line: by then the entry is (normally) gone, so this
